@@ -88,7 +88,10 @@ def pool(rng):
          A.Struct(A.Renamed("k", A.Bytes(A.T("_params", "k"))), A.Renamed("p", A.Pointer(0, A.Alias("Byte"))), A.Renamed("t", A.Tell)),
          A.BitStruct(A.Renamed("a", A.BitsInteger(3)), A.Renamed("b", A.BitsInteger(13))),
          A.Prefixed(A.Alias("Byte"), A.Struct(A.Renamed("x", A.CString("utf8")), A.Renamed("r", A.RawCopy(A.Alias("Byte"))))),
-         A.Struct(A.Renamed("e", A.Enum(A.Alias("Byte"), one=1, two=2)), A.Renamed("f", A.FlagsEnum(A.Alias("Byte"), a=1, b=2)))]
+         A.Struct(A.Renamed("e", A.Enum(A.Alias("Byte"), one=1, two=2)), A.Renamed("f", A.FlagsEnum(A.Alias("Byte"), a=1, b=2))),
+         # a relative seek (terminator left in place) inside length-limited regions: the same values at every starting offset
+         A.FixedSized(6, A.Sequence(A.NullTerminated(A.GreedyBytes, consume=False), A.GreedyBytes)),
+         A.Struct(A.Renamed("n", A.Alias("Byte")), A.Renamed("p", A.Prefixed(A.Alias("Byte"), A.Sequence(A.NullTerminated(A.GreedyBytes, consume=False), A.Alias("Byte")))))]
     for _ in range(4):
         P.append(gen.program(rng, 2, {"k": 2}))
     return P
@@ -156,6 +159,21 @@ def run(ctx):
                 nt += 1
             except Exception:
                 pass
+            # ---- signed and unsigned bit fields of the same narrow width: what one accepted says nothing about the other
+            for w in (3, 4, 7):
+                sp = A.BitStruct(A.Renamed("a", A.BitsInteger(w, signed=True)), A.Renamed("b", A.BitsInteger(8 - w)))
+                up = A.BitStruct(A.Renamed("a", A.BitsInteger(w)), A.Renamed("b", A.BitsInteger(8 - w)))
+                sc, uc = campaign.realizable(sp), campaign.realizable(up)
+                big = (1 << w) - 1
+                for v in ({"a": big, "b": 0}, {"a": 1 << (w - 1), "b": 1}):
+                    i1, _ = camp.build(sp, sc, v, b"", {})
+                    i2, _ = camp.build(up, uc, v, b"", {})
+                    i3, _ = camp.build(sp, sc, v, b"", {})
+                    i4, _ = camp.build(sp, sc, {"a": v["a"] - (1 << w), "b": v["b"]}, b"", {})
+                    i5, _ = camp.build(up, uc, v, b"", {})
+                    i6, _ = camp.build(sp, sc, v, b"", {})
+                    camp.sh.session("C17.pure", [i1, i3]); camp.sh.session("C17.pure", [i1, i6]); camp.sh.session("C17.pure", [i2, i5])
+                nt += 1
             # ---- a failing build between two identical ones, on the list adapters
             for (po, co), good, bad in (((opq("slicing"), slicing), [2, 3], [7]), ((opq("indexing"), indexing), 5, None)):
                 b0 = digest(allobjs)
